@@ -377,6 +377,32 @@ def map_programs_c11(ctx, rng):
     return progs
 
 
+def small_scope_map_programs(depth, kind, kt, vt, pin=None):
+    """All call sequences of length <= depth over a two-key menu (12 calls)."""
+    import itertools
+    menu = [("Store", "k1", ""), ("Store", "k2", ""), ("Load", "k1", ""), ("LoadOrStore", "k1", ""), ("LoadAndStore", "k1", ""), ("LoadOrCompute", "k2", ""),
+            ("Compute", "k1", "toggle"), ("Compute", "k2", "delret"), ("Compute", "k1", "setifabsent"), ("LoadAndDelete", "k1", ""), ("Delete", "k2", ""), ("Clear", "", "")]
+    progs = []
+    for L in range(1, depth + 1):
+        for seq in itertools.product(menu, repeat=L):
+            ops = []
+            for n, (o, k, fn) in enumerate(seq):
+                op = {"op": o}
+                if k:
+                    op["k"] = k
+                if o in ("Store", "LoadOrStore", "LoadAndStore", "LoadOrCompute", "Compute"):
+                    op["v"] = "v%d" % (n + 1)
+                if fn:
+                    op["fn"] = fn
+                ops.append(op)
+            ops += [{"op": "Load", "k": "k1"}, {"op": "Load", "k": "k2"}, {"op": "Range", "fn": "all"}, {"op": "Size"}]
+            p = {"map": {"kind": kind, "keytype": kt, "valtype": vt}, "ops": ops, "note": "small-scope L=%d" % L}
+            if pin:
+                p["pin"] = pin
+            progs.append(p)
+    return progs
+
+
 def strip_header(lines):
     return lines[1:]
 
@@ -417,6 +443,11 @@ def check_c11(ctx):
     for (kind, kt, vt) in CONTAINERS_MAP:
         progs = [instantiate(p, kind, kt, vt) for p in base]
         results[(kind, kt, vt)] = run_seq(ctx, progs, "Trace_MapSeq", "C11", "%s[%s,%s] hints/pins/bulk" % (kind, kt, vt))
+    # small scope, exhaustively: every call sequence of length <= 3 over a two-key menu, default layout and both keys in one slot-mate chain
+    for (kind, kt, vt) in CONTAINERS_MAP[:2]:
+        for pin in (None, {"keys": {"k1": [5, 1], "k2": [5, 1]}, "avoid": [5]}):
+            progs = small_scope_map_programs(3, kind, kt, vt, pin)
+            run_seq(ctx, progs, "Trace_MapSeq", "C11", "%s small-scope depth 3%s" % (kind, " (colliding keys)" if pin else ""))
     # fresh processes: the per-process hash key differs, results must not
     progs = [instantiate(p, "Map", "", "") for p in base]
     ref = results[("Map", "", "")]
